@@ -83,7 +83,7 @@ class Driver:
         self.kappa_max = 0.0
         self.t_total = 0
         self.diam_lo = self.diam_hi = None  # extreme set diameters since the last reset
-        self.counts = {"replace": 0, "shift": 0, "reset": 0, "ill": 0, "neardeg": 0, "det": 0, "skipped": 0}
+        self.counts = {"replace": 0, "shift": 0, "reset": 0, "ill": 0, "neardeg": 0, "det": 0, "skipped": 0, "alt": 0}
         self.last_update_hess = None
         self.check("init")
 
@@ -316,6 +316,41 @@ class Driver:
         self.last_update_hess = None
         self.check("reset")
 
+    def alt(self):
+        """The *alternative* objective model (`fun_alt_grad`): the freshly built least-Frobenius-norm
+        interpolant of the values recorded on the current set.  It is a pure query - the solver asks for it
+        right after an update, the machine asks at any moment (in particular between a shift and a reset, where a
+        cache kept across the shift would show)."""
+        m = self.m
+        P = np.array([m.interpolation.point(k) for k in range(self.npt)])
+        xp = P.mean(axis=0)
+        try:
+            g = [m.fun_alt_grad(xp)]
+        except np.linalg.LinAlgError:
+            self.counts["skipped"] += 1
+            return
+        self.counts["alt"] += 1
+        kap = self.kappa()
+        if "C13" not in self.focus or not self.exact_ok or not kap < 1e8:
+            return
+        xf = X.frv(xp)
+        scale = max(self.vscale, float(np.max(np.abs(m.fun_val))), float(np.max(np.abs(m.cub_val))))
+        for name, gv, vals in (("objective", g[0], m.fun_val),):
+            ref = X.ExactQuad(self.n)
+            ref.b = self.base_fr()
+            if ref.add_lfn(self.P, ref.b, X.frv(vals)) is None:
+                return
+            eg = np.array([float(v) for v in ref.grad(xf)])
+            M = max(scale, ref.mag(xf))
+            tol = K * EPS * kap * M
+            gerr = max(abs(float((gv - eg) @ (P[i] - xp))) for i in range(self.npt))
+            self.out.ratio("C13.alt/(eps*kappa*M)", gerr / (EPS * kap * M))
+            if not (gerr <= tol):
+                self.out.fail("C13.alt", "the alternative %s model (a freshly built least-norm interpolant of the "
+                              "recorded values) has directional derivatives towards the interpolation points that "
+                              "differ from the exact interpolant's by %.3g (tolerance %.3g, kappa %.3g, n=%d npt=%d)"
+                              % (name, gerr, tol, kap, self.n, self.npt))
+
     def probe_values(self):
         """Model views at deterministic probe points inside the set (centroid and midpoints)."""
         m = self.m
@@ -531,6 +566,13 @@ def make_machine(focus, nmax, neardeg=(0, 0, 0, 0, 20, 30, 40, -24)):
             self.ops.append(["reset"])
             self.drv.reset()
 
+        @precondition(lambda self: self.drv is not None)
+        @rule()
+        def alt(self):
+            self.drv.out = self.out
+            self.ops.append(["alt"])
+            self.drv.alt()
+
         @invariant()
         def report(self):
             if self.drv is not None:
@@ -564,6 +606,8 @@ def replay(focus, init, ops):
             drv.replace(*op[1:])
         elif op[0] == "shift":
             drv.shift(*op[1:])
+        elif op[0] == "alt":
+            drv.alt()
         else:
             drv.reset()
     drv.finish()
